@@ -49,11 +49,6 @@ InputsOk(c, nvars) ==
 R(run, s, k) == T(run.obs[s][k])
 Step(run, s) == [k \in DOMAIN run.obs[s] |-> R(run, s, k)]
 
-\* Member-level test of a result r for inputs a, b (independent of Meet).
-WitnessOk(a, b, r) ==
-  \A w \in Witnesses(a) \cup Witnesses(b) \cup Witnesses(r) :
-     (Member(w, a) /\ Member(w, b)) <=> Member(w, r)
-
 (***************************************************************************)
 (* Why two canonical terms have no common instance (coverage only).        *)
 (***************************************************************************)
@@ -83,26 +78,32 @@ BumpIf(cond, i) == IF cond THEN Bump(i) ELSE TRUE
 (***************************************************************************)
 (* pair                                                                    *)
 (***************************************************************************)
-JudgePairRun(a, b, run) ==
-  LET m   == Meet(a, b)
-      ra1 == R(run, 1, 1)
+\* kn: what is known on either side; wit: witnesses of the two inputs.
+JudgePairRun(a, b, m, kn, wit, run) ==
+  LET ra1 == R(run, 1, 1)
       rb1 == R(run, 1, 2)
+      WitOk(r) == \A w \in wit \cup Witnesses(r) :
+                    (Member(w, a) /\ Member(w, b)) <=> Member(w, r)
   IN   Fail(ra1 = rb1, "sides_equal", ra1, rb1)
     \o Fail(IsBot(ra1) <=> IsBot(m), "clash_iff_no_common_instance", m, ra1)
     \o Fail(ra1 = m /\ rb1 = m, "equals_meet", m, <<ra1, rb1>>)
-    \o Fail(IsBot(m) \/ IsBot(ra1)
-              \/ (Known(a) \cup Known(b)) \subseteq Known(ra1),
-            "keeps_known", (Known(a) \cup Known(b)) \ Known(ra1), ra1)
-    \o Fail(WitnessOk(a, b, ra1) /\ WitnessOk(a, b, rb1),
+    \o Fail(IsBot(m) \/ IsBot(ra1) \/ kn \subseteq Known(ra1),
+            "keeps_known", kn \ Known(ra1), ra1)
+    \o Fail(WitOk(ra1) /\ (rb1 = ra1 \/ WitOk(rb1)),
             "instances_are_the_common_instances", m, <<ra1, rb1>>)
-    \o Fail(Step(run, 2) = Step(run, 1), "idempotent", Step(run, 1), Step(run, 2))
+    \o Fail(run.obs[2] = run.obs[1] \/ Step(run, 2) = Step(run, 1),
+            "idempotent", Step(run, 1), Step(run, 2))
 
 JudgePair(c) ==
-  LET a == T(c.t[1])
-      b == T(c.t[2])
+  LET a   == T(c.t[1])
+      b   == T(c.t[2])
+      m   == Meet(a, b)
+      kn  == Known(a) \cup Known(b)
+      wit == Witnesses(a) \cup Witnesses(b)
   IN   Fail(InputsOk(c, 0), "input_wellformed", "", "")
-    \o JudgePairRun(a, b, c.runs[1])
-    \o JudgePairRun(a, b, c.runs[2])
+    \o JudgePairRun(a, b, m, kn, wit, c.runs[1])
+    \o (IF c.runs[2].obs = c.runs[1].obs THEN <<>>   \* same record, same verdict
+        ELSE JudgePairRun(a, b, m, kn, wit, c.runs[2]))
     \o Fail(Step(c.runs[1], 1) = Step(c.runs[2], 1), "symmetric",
             Step(c.runs[1], 1), Step(c.runs[2], 1))
 
@@ -179,6 +180,10 @@ ExpElem(l, e) ==
 
 ExpField(r, f, v) == Meet(r, Rec("open", <<<<f, v>>>>))
 
+\* The repeated call is a new constraint between the (already unified) first
+\* reference and a fresh term; it must change nothing when there was no clash.
+\* After a clash its inputs carry clash markers, which is outside the
+\* property's quantifier: only counted (DerivedClashLost).
 JudgeDerived(c, exp, part) ==   \* part: what the second reference must show
   LET run == c.runs[1]
       r1  == R(run, 1, 1)
@@ -187,8 +192,13 @@ JudgeDerived(c, exp, part) ==   \* part: what the second reference must show
     \o (IF IsBot(exp)
         THEN Fail(IsBot(r1) \/ IsBot(r2), "clash_iff_no_common_instance", exp,
                   <<r1, r2>>)
-        ELSE Fail(r1 = exp /\ r2 = part, "equals_meet", <<exp, part>>, <<r1, r2>>))
-    \o Fail(Step(run, 2) = Step(run, 1), "idempotent", Step(run, 1), Step(run, 2))
+        ELSE Fail(r1 = exp /\ r2 = part, "equals_meet", <<exp, part>>, <<r1, r2>>)
+             \o Fail(Step(run, 2) = Step(run, 1), "idempotent", Step(run, 1),
+                     Step(run, 2)))
+
+DerivedClashLost(c, exp) ==
+  /\ IsBot(exp)
+  /\ ~IsBot(R(c.runs[1], 2, 1)) /\ ~IsBot(R(c.runs[1], 2, 2))
 
 JudgeElem(c) ==
   LET exp == ExpElem(T(c.t[1]), T(c.t[2]))
@@ -198,9 +208,14 @@ JudgeField(c) ==
   LET exp == ExpField(T(c.t[1]), c.f, T(c.t[2]))
   IN JudgeDerived(c, exp, IF IsBot(exp) THEN Bot ELSE FGet(exp[3], c.f))
 
-CountElem(c)  == Bump(40) /\ BumpIf(IsBot(ExpElem(T(c.t[1]), T(c.t[2]))), 41)
-CountField(c) == Bump(42)
-                 /\ BumpIf(IsBot(ExpField(T(c.t[1]), c.f, T(c.t[2]))), 43)
+CountElem(c)  ==
+  LET exp == ExpElem(T(c.t[1]), T(c.t[2]))
+  IN Bump(40) /\ BumpIf(IsBot(exp), 41) /\ BumpIf(DerivedClashLost(c, exp), 44)
+     /\ BumpIf(~IsBot(exp) /\ exp # T(c.t[1]), 45)
+CountField(c) ==
+  LET exp == ExpField(T(c.t[1]), c.f, T(c.t[2]))
+  IN Bump(42) /\ BumpIf(IsBot(exp), 43) /\ BumpIf(DerivedClashLost(c, exp), 44)
+     /\ BumpIf(~IsBot(exp) /\ exp # T(c.t[1]), 46)
 
 (***************************************************************************)
 (* shared references: the meaning of the store, by brute force.            *)
@@ -285,8 +300,9 @@ Init ==
      IN /\ TLCSet(100, lines)
         /\ TLCSet(101, tab)
         /\ TLCSet(102, TLCEval([j \in DOMAIN tab |-> Canon(tab[j])]))
-  /\ TLCSet(103, TLCEval(Pool(1)))
-  /\ TLCSet(104, TLCEval(Pool(2)))
+        /\ LET shared == \E j \in 2..Len(lines) : lines[j].k = "shared"
+           IN /\ TLCSet(103, IF shared THEN TLCEval(Pool(1)) ELSE {})
+              /\ TLCSet(104, IF shared THEN TLCEval(Pool(2)) ELSE {})
 
 Next ==
   /\ i <= NCases
